@@ -35,3 +35,21 @@ Definition is_some {A} (o : option A) : bool := match o with Some _ => true | No
    command-line/config text, and `str` is a member — the original text is then taken *)
 Definition str_fallback (orig : option str) (v : val) (ts : list ty) : bool :=
   is_some orig && negb (is_str v) && existsb is_str_ty ts.
+
+(* ---- command-line / config TEXT of the right shape (theorems: Proofs/C02TextProofs.v; judge: text_right_shape) ------
+   the text is not blank and not '-' (the parser keeps those as text), jsonargparse's load_basic — tried by load_value
+   before YAML — reads it as the loader does, and the loader reads it as a value that is not a str and has the shape of
+   the hint *)
+Definition lres_is (r : lres) (x : val) : bool := match r with LVal y => val_eqb y x | _ => false end.
+
+Definition basic_agrees (yl : str -> lres) (s : str) : bool :=
+  match load_basic s with Some v => lres_is (yl s) v | None => true end.
+
+(* the premise of the theorems below, executable: the judge (Corr/C02Judge.v text_right_shape) evaluates the same function *)
+Definition text_shaped (yl : str -> lres) (t : ty) (s : str) : bool :=
+  match strip s with
+  | [] => false
+  | _ => negb (str_eqb (strip s) [45%N]) && basic_agrees yl s
+         && match yl s with LVal x => negb (is_str x) && shaped t x | _ => false end
+  end.
+
